@@ -4,15 +4,14 @@ checks on it statically (hmscheck -all), and record in each meta.json which prop
 checks / rules report a violation. Scratch copies live under $TMPDIR and are removed."""
 import json,glob,os,shutil,subprocess,sys,tempfile
 from concurrent.futures import ThreadPoolExecutor
-ENV=dict(os.environ,GOFLAGS='-mod=mod',GOPROXY='off',GOSUMDB='off',GOTOOLCHAIN='local',GOWORK='off')
+ENV=dict(os.environ,GOFLAGS='-mod=mod -trimpath',GOPROXY='off',GOSUMDB='off',GOTOOLCHAIN='local',GOWORK='off')
 only=sys.argv[1:]
 def run(d):
     name=os.path.basename(d)
     tmp=tempfile.mkdtemp(prefix='hms-matrix-')
     try:
         scr=os.path.join(tmp,'repo')
-        subprocess.run(['cp','-a','/repo',scr],check=True)
-        shutil.rmtree(os.path.join(scr,'.git'),ignore_errors=True)
+        os.makedirs(scr); subprocess.run(['rsync','-a','--exclude=.git','/repo/',scr+'/'],check=True)
         p=subprocess.run(['git','apply','--whitespace=nowarn',os.path.join(d,'patch.diff')],cwd=scr,capture_output=True,text=True)
         if p.returncode!=0: return name,None,'patch does not apply: '+p.stderr[:200]
         p=subprocess.run(['/verif/bin/hmscheck','-all','-repo',scr,'-verif','/verif'],capture_output=True,text=True,env=ENV)
